@@ -1,4 +1,5 @@
 import XcpModel.Walker
+import XcpProofs.GiTree
 /-! # C17 — `--gitignore` copies exactly the entries the root .gitignore does not exclude
 
 PARTIAL by nature: the pattern engine xcp uses is the third-party `ignore`/`globset` crate; no theorem is
@@ -6,8 +7,12 @@ about it.  What is proved is about (a) the Lean SPECIFICATION of git's pattern s
 the property quantifies over (`Xcp.Gi`), and (b) the walker's pruning discipline (`walkEntry`): an excluded
 entry emits nothing and is not descended into, so an excluded directory excludes everything beneath it and a
 negation cannot re-include below it; the root itself is never filtered (the `fix:` commit); without the option
-nothing is filtered.  That xcp ≡ this spec ≡ `git check-ignore` is established by the three-way correspondence
-run only.  -/
+nothing is filtered.  At tree level (`destination_is_the_pruned_source_tree`, from `XcpProofs/GiTree.lean`): for ANY pattern list and any
+copyable source tree copied to a fresh target, the destination is EXACTLY the source tree minus the excluded entries
+(`Node.prune`: an entry is dropped iff `keeps` rejects its relative path with the entry's own is-directory flag, and
+with it everything beneath), at every depth.  The flag is the entry's OWN type (`giIsDir`): a symbolic link to a
+directory is not a directory for a pattern unless the walk follows links (finding F19, repaired by a `fix:` commit).
+That xcp ≡ this spec ≡ `git check-ignore` is established by the three-way correspondence run only.  -/
 namespace Xcp.C17
 
 open Xcp Xcp.Gi
@@ -59,7 +64,7 @@ theorem no_option_no_filter (fs : Fs) (c : Cfg) (texts : GiTexts) (src : RPath) 
 excludes everything beneath it, and no negation further down can re-include anything -/
 theorem excluded_entry_is_pruned (fs : Fs) (c : Cfg) (ps : List Pattern) (src tb : RPath) (fuel : Nat)
     (rel : List Name) (anc : List (List Name)) (hr : rel ≠ [])
-    (hx : keeps ps rel (fs.isDir (relJoin src rel)) = false) :
+    (hx : keeps ps rel (giIsDir fs c (relJoin src rel)) = false) :
     walkEntry fs c (some ps) src tb (fuel + 1) rel anc = [] ∨
     walkEntry fs c (some ps) src tb (fuel + 1) rel anc = [.fail] := by
   have hd : decide (rel.length > 0) = true := by
@@ -108,5 +113,69 @@ example : (parseLine [47, 116, 111, 112]).map (·.matches [[115], [116, 111, 112
 example : (parseLine [97, 47, 42, 42, 47, 122]).map (·.matches [[97], [120], [121], [122]] false) = some true := by decide
 example : (parseLine [97, 47, 42, 42]).map (·.matches [[97]] true) = some false := by decide
 example : Gi.decide (Gi.parse [42, 46, 111, 10, 33, 107, 101, 101, 112, 46, 111, 10]) [[107, 101, 101, 112, 46, 111]] false = .whitelist := by decide
+
+/-- a symbolic link is not a directory for the pattern match unless the walk follows links (the repaired defect F19:
+`Path::is_dir()` followed the link, so `lnk/` excluded a link to a directory that git keeps) -/
+theorem link_is_not_a_directory_for_patterns (fs : Fs) (c : Cfg) (p : RPath) (cp : List Name) (t : RPath)
+    (hd : c.dereference = false) (h : fs.lstat p = some (cp, .link t)) : giIsDir fs c p = false := by
+  simp [giIsDir, h, hd]
+
+/-- TREE LEVEL: with patterns `ps` in force, copying any copyable source tree to a fresh target runs every emitted
+operation successfully and leaves exactly the PRUNED source tree at the target: `Node.prune ps [] srcNode` drops an entry
+iff `keeps ps <relative path> <entry is a directory>` is false, together with everything beneath it, at every depth; the
+root itself is never tested -/
+theorem destination_is_the_pruned_source_tree (fs : Fs) (c : Cfg) (hd : c.dereference = false) (hn : c.noClobber = false)
+    (ps : List Gi.Pattern)
+    (src tb : RPath) (srcNode : Node) (fuel : Nat)
+    (hwf : FsEq fs fs) (hroot : fs.root.isDir = true)
+    (hsrc : PlainTarget fs src) (hsn : fs.root.getAt src.names = some srcNode)
+    (hcop : srcNode.Copyable fuel)
+    (htb : PlainTarget fs tb) (hne : tb.names ≠ []) (habs : fs.root.getAt tb.names = none)
+    (hpar : ∃ es, fs.root.getAt tb.names.dropLast = some (.dir es))
+    (hun1 : ¬ src.names <+: tb.names) (hun2 : ¬ tb.names <+: src.names)
+    (hlen : src.names.length + fuel < 200 ∧ tb.names.length + fuel < 200) :
+    ∃ fs', execOps fs c (walkEntry fs c (some ps) src tb (fuel + 1) [] []) = ⟨.ok, fs'⟩ ∧
+      FsEq fs' { fs with root := fs.root.setAt tb.names (Node.prune ps [] srcNode) } :=
+  mirror_fresh_gitignore fs c hd hn ps src tb srcNode fuel hwf hroot hsrc hsn hcop htb hne habs hpar hun1 hun2 hlen
+
+/-- … so an excluded entry, at any depth, and everything below it, is absent from the destination (no negation further
+down re-includes anything) … -/
+theorem excluded_entry_and_everything_below_is_absent (fs : Fs) (c : Cfg) (hd : c.dereference = false) (hn : c.noClobber = false)
+    (ps : List Gi.Pattern)
+    (src tb : RPath) (srcNode : Node) (fuel : Nat)
+    (hwf : FsEq fs fs) (hroot : fs.root.isDir = true)
+    (hsrc : PlainTarget fs src) (hsn : fs.root.getAt src.names = some srcNode)
+    (hcop : srcNode.Copyable fuel)
+    (htb : PlainTarget fs tb) (hne : tb.names ≠ []) (habs : fs.root.getAt tb.names = none)
+    (hpar : ∃ es, fs.root.getAt tb.names.dropLast = some (.dir es))
+    (hun1 : ¬ src.names <+: tb.names) (hun2 : ¬ tb.names <+: src.names)
+    (hlen : src.names.length + fuel < 200 ∧ tb.names.length + fuel < 200)
+    (rel : List Name) (m : Name) (ch : Node) (below : List Name)
+    (hch : srcNode.getAt (rel ++ [m]) = some ch)
+    (hx : Gi.keeps ps (rel ++ [m]) ch.isDir = false) :
+    ∃ fs', execOps fs c (walkEntry fs c (some ps) src tb (fuel + 1) [] []) = ⟨.ok, fs'⟩ ∧
+      fs'.root.getAt (tb.names ++ (rel ++ [m]) ++ below) = none :=
+  excluded_entry_absent fs c hd hn ps src tb srcNode fuel hwf hroot hsrc hsn hcop htb hne habs hpar hun1 hun2 hlen rel m ch below hch hx
+
+/-- … a kept entry of the source root is present, observed as in the source … -/
+theorem kept_entry_is_copied (fs : Fs) (c : Cfg) (hd : c.dereference = false) (hn : c.noClobber = false)
+    (ps : List Gi.Pattern)
+    (src tb : RPath) (srcNode : Node) (fuel : Nat)
+    (hwf : FsEq fs fs) (hroot : fs.root.isDir = true)
+    (hsrc : PlainTarget fs src) (hsn : fs.root.getAt src.names = some srcNode)
+    (hcop : srcNode.Copyable fuel)
+    (htb : PlainTarget fs tb) (hne : tb.names ≠ []) (habs : fs.root.getAt tb.names = none)
+    (hpar : ∃ es, fs.root.getAt tb.names.dropLast = some (.dir es))
+    (hun1 : ¬ src.names <+: tb.names) (hun2 : ¬ tb.names <+: src.names)
+    (hlen : src.names.length + fuel < 200 ∧ tb.names.length + fuel < 200)
+    (m : Name) (ch : Node) (hch : srcNode.getAt [m] = some ch)
+    (hk : Gi.keeps ps [m] ch.isDir = true) :
+    ∃ fs', execOps fs c (walkEntry fs c (some ps) src tb (fuel + 1) [] []) = ⟨.ok, fs'⟩ ∧
+      obsAt fs'.root (tb.names ++ [m]) = some (Node.prune ps [m] ch).obs ∧
+      (Node.prune ps [m] ch).obs = ch.obs :=
+  kept_child_present fs c hd hn ps src tb srcNode fuel hwf hroot hsrc hsn hcop htb hne habs hpar hun1 hun2 hlen m ch hch hk
+
+/-- … and with no pattern lines nothing is pruned -/
+theorem no_patterns_prune_nothing (rel : List Name) (n : Node) : Node.prune [] rel n = n := prune_nil' rel n
 
 end Xcp.C17
